@@ -101,25 +101,14 @@ theorem C04_cancel_io_fails (c : Conf) (hc : O.cancel c.tr = true) (e : Ev)
     | exact absurd he.symm (List.cons_ne_self _ _)
     | (injection he with h1 h2; subst h1; clear h2; simp_all; done)
 
-/-- **no panic (partial)**: the only way the machine reaches the `crash` point is a stream
-error element where a stream header is expected (known finding in internal/stream); for a
-peer script without such an element negotiation never panics -/
-theorem C04_no_panic_partial {c : Conf} (h : Reach C O st0 script picks c)
-    (hs : Peer.serr ∉ script) : c.pc ≠ .crash :=
-  fun hc => hs ((invS_reach h).crash hc)
+/-- **no panic**: the machine never reaches the `crash` point -/
+theorem C04_no_panic {c : Conf} (h : Reach C O st0 script picks c) : c.pc ≠ .crash :=
+  (invS_reach h).crash
 
 /-- the quiet oracle: nothing fails, nothing is cancelled, callbacks succeed with empty masks -/
 def quiet : Oracle :=
   { neg := fun _ _ _ => ⟨0, false, false⟩, list := fun _ _ _ => ⟨false, false⟩,
     parseErr := fun _ _ _ => false, fault := fun _ => false, cancel := fun _ => false }
-
-/-- **no panic fails at full strength** (negation witness, replayed on the implementation by
-the corpus line `C04 run 8 0 - X - -`): a receiver whose peer opens with a stream error -/
-theorem C04_no_panic_fails :
-    ¬ (∀ (C : List Feature) (O : Oracle) (st0 : St) (script : List Peer) (picks : List FName) (c : Conf),
-        Reach C O st0 script picks c → c.pc ≠ .crash) := by
-  intro h
-  exact h [] quiet bReceived [.serr] [] _ ⟨2, rfl⟩ (by decide)
 
 /-! ### non-vacuity -/
 
